@@ -30,6 +30,22 @@ struct Flags {
 
 using deps::Wrap; using deps::wrap;
 
+// Seeds whose phrase is as long as a phrase of that language can be (all 16 words, the check word included, of maximal NFKD
+// length, e.g. the 543-byte Korean phrases): from the golden lists and the reference arithmetic, two per language, built once.
+struct Extremal { model::Seed seed; unsigned coin; size_t lang; };
+inline std::vector<Extremal> build_extremal_table() {
+    std::vector<Extremal> T;
+    const lib::Registry& REG = lib::Registry::get();
+    for (size_t li = 0; li < REG.size(); li++) { const model::Lang* gl = REG.at(li).golden; if (!gl) continue;
+        size_t maxw = 0; for (auto& w : gl->words) maxw = std::max(maxw, w.size()); std::vector<unsigned> top, even; for (unsigned i = 0; i < 2048; i++) if (gl->words[i].size() == maxw) { top.push_back(i); if (!(i & 1)) even.push_back(i); }
+        if (top.size() < 2 || even.empty()) continue; vf::SplitMix sm(vf::mix64(0xE17 + li)); int found = 0;
+        for (int tries = 0; tries < 400000 && found < 2; tries++) { std::array<unsigned, 16> sh{}; for (int i = 1; i < 16; i++) sh[i] = top[sm.below((uint32_t)top.size())]; sh[2] = even[sm.below((uint32_t)even.size())];
+            unsigned coin = sm.below(2048); std::array<unsigned, 16> co = sh; co[1] ^= coin; if (gl->words[model::check_value(co)].size() != maxw) continue;
+            T.push_back(Extremal{model::unpack(co), coin, li}); found++; } }
+    return T;
+}
+inline const std::vector<Extremal>& extremal_table() { static const std::vector<Extremal> T = build_extremal_table(); return T; }   /* initialised once, thread-safely (C20 runs many Machines) */
+
 struct Machine {
     Flags fl; const lib::Registry& REG = lib::Registry::get();
     // model state
@@ -61,13 +77,14 @@ struct Machine {
     void release(int i) { // free through the library
         if (!ptr[i]) return; polyseed_data* p = ptr[i]; last_freed = (uintptr_t)p;
         polyseed_free(p);
-        ptr[i] = nullptr; slot[i].reset(); crypted[i] = false;
+        ptr[i] = nullptr; slot[i].reset(); crypted[i] = false; ext_of[i] = -1;
     }
     void finish() { if (wrap().enabled) { wrap().api = false; wrap().env_fake = nullptr; } /* no shared writes unless interposition is in use: C20 runs many Machines at once */ for (int i = 0; i < NSLOTS; i++) release(i); }
     // What the caller's output variables hold BEFORE a constructor / decoder call is none of the library's business: they are pre-set to NULL,
     // to the (dangling) address of the seed freed last — which the recycling allocator is about to hand out again —, to another live seed,
     // to a non-pointer; lang_out to NULL, to each registered language, to a non-pointer.  Results must be the same.
     uintptr_t last_freed = 0;
+    int ext_of[NSLOTS] = {-1, -1, -1, -1};   /* index into extremal_table() if the slot holds such a seed */
     polyseed_data* prior_seed(const Op& o) { switch ((o.a ^ (o.b >> 1) ^ (o.c >> 2)) & 3) { case 1: cls["out-var:dangling-address-of-last-freed-seed"]++; return (polyseed_data*)last_freed; case 2: cls["out-var:another-live-seed"]++; return ptr[pick_live(o.c)]; case 3: return (polyseed_data*)(uintptr_t)0x10; default: return nullptr; } }
     const polyseed_lang* prior_lang(const Op& o) { size_t v = (size_t)(o.a + o.c) % (REG.size() + 2); if (v < REG.size()) { cls["out-var:lang_out-holds-a-language"]++; return REG.at(v).lang; } return v == REG.size() ? nullptr : (const polyseed_lang*)(uintptr_t)0x10; }
 
@@ -158,20 +175,23 @@ struct Machine {
             cls[std::string("create:") + model::status_name(st)]++; cls[std::string("cell:create/") + model::status_name(st) + (fail_mask ? "/armed" : "/unarmed")]++;
         } break;
         case LOAD: {
-            int j = pick_live(o.a), i = o.b % NSLOTS; lib::Image img; int kind = o.c % 6;
+            int j = pick_live(o.a), i = o.b % NSLOTS; lib::Image img; int kind = o.c % 6; int ext = -1;
             model::Seed src = slot[j] ? *slot[j] : model::Seed(); img = model::image(src);
+            if ((o.c & 0xC0) == 0xC0 && !extremal_table().empty()) { ext = (int)((o.a + o.b) % extremal_table().size()); src = extremal_table()[(size_t)ext].seed; img = model::image(src); kind = 0; cls["load:seed-with-the-longest-possible-phrase"]++; }
             if (kind == 1) img[30] ^= 1; else if (kind == 2) img[0] ^= 0x20; else if (kind == 3) { src.features |= 8; img = model::image(src); } else if (kind == 4) img[28] |= 0x80; else if (kind == 5) { model::Seed z; z.features = (o.c >> 3) & 7u; z.birthday = (o.c == 5) ? 0 : o.c; img = model::image(z); src = z; }   // o.c == 5: the all-zero seed (valid: zero secret, month 0, no features, check value 0)
             release(i);
             polyseed_data* s = prior_seed(o); if (wr.enabled) { wr.malloc_calls = wr.free_calls = 0; wr.window = true; } arm_now(); int st = (int)polyseed_load(img.data(), &s); k.disarm(); if (wr.enabled) wr.window = false;
             model::Seed ms; int expect = model::load_verdict(img.data(), mask, &ms);
-            if (st == 0) { ptr[i] = s; owned[i] = true; slot[i] = (expect == 0) ? ms : model::Seed(); }
+            if (st == 0) { ptr[i] = s; owned[i] = true; slot[i] = (expect == 0) ? ms : model::Seed(); ext_of[i] = ext; }
             if (observed_fail()) { saw_alloc_fail = true; if (st != model::MEMORY) err = std::string("the allocator failed during load but the status is ") + model::status_name(st); }
             else if (fl.check_model && st != expect) err = std::string("load returned ") + model::status_name(st) + ", model says " + model::status_name(expect) + " for " + vf::hex(img.data(), 32) + " under mask " + std::to_string(mask);
             else if (!fl.check_model && st == 0 && expect != 0) slot[i] = lib::abstract(s);
             if (st != 0) saw_failed_ctor = true; cls[std::string("load:") + model::status_name(st)]++; cls[std::string("cell:load/") + model::status_name(observed_fail() ? expect : st) + (fail_mask ? "/armed" : "/unarmed")]++;
         } break;
         case DECODE: case DECODE_X: {
-            int j = pick_live(o.a), i = (o.a >> 2) % NSLOTS; const lib::LangEntry& le = REG.at(o.b % REG.size()); int kind = o.c % 8; unsigned A = (unsigned)(o.c * 37 + o.b) & 2047u;
+            int j = pick_live(o.a), i = (o.a >> 2) % NSLOTS; size_t dli = o.b % REG.size(); int kind = o.c % 8; unsigned A = (unsigned)(o.c * 37 + o.b) & 2047u;
+            if (ptr[j] && ext_of[j] >= 0 && (o.a & 3)) { dli = extremal_table()[(size_t)ext_of[j]].lang; A = extremal_table()[(size_t)ext_of[j]].coin; cls["decode:longest-possible-phrase"]++; }
+            const lib::LangEntry& le = REG.at(dli);
             bool expl = o.code == DECODE_X; std::string phrase; int expect = -1; model::Seed src;
             if (!slot[j]) { // no source seed: fixed malformed strings
                 static const char* bad[] = {"one two three four five six seven eight nine ten eleven twelve thirteen fourteen fifteen", "a b c d e f g h i j k l m n o p q", "xxxx xxxx xxxx xxxx xxxx xxxx xxxx xxxx xxxx xxxx xxxx xxxx xxxx xxxx xxxx xxxx", ""};
@@ -198,6 +218,7 @@ struct Machine {
                 else if (kind == 1) expect = model::CHECKSUM;
                 else expect = supported ? model::OK : model::UNSUPPORTED;
             }
+            if (kind < 100 && model::nfkd(phrase).size() > POLYSEED_STR_SIZE - 1) expect = -1;   /* longer than the phrase buffer: the normaliser interface truncates, no property fixes the outcome (DESIGN section 5) */
             release(i);
             polyseed_data* s = prior_seed(o); const polyseed_lang* lo = prior_lang(o); const polyseed_lang* lo_before = lo; (void)lo_before; if (wr.enabled) { wr.malloc_calls = wr.free_calls = 0; wr.window = true; }
             arm_now(); int st = expl ? (int)polyseed_decode_explicit(phrase.c_str(), (polyseed_coin)B, use, &s) : (int)polyseed_decode(phrase.c_str(), (polyseed_coin)B, (o.b & 0x40) ? nullptr : &lo, &s); k.disarm();   /* lang_out is optional */ if (wr.enabled) wr.window = false;
@@ -216,7 +237,9 @@ struct Machine {
             uint8_t m[32]; deps::kdf_fill(k, kc.pw.data(), kc.pwlen, kc.salt.data(), kc.saltlen, m, 32); slot[i] = model::crypt(*slot[i], m); crypted[i] = true;
         } break;
         case ENCODE: {
-            int i = pick_live(o.a); if (!ptr[i]) break; const lib::LangEntry& le = REG.at(o.b % REG.size()); unsigned coin = (unsigned)(o.c * 8 + (o.b & 7)) & 2047u;
+            int i = pick_live(o.a); if (!ptr[i]) break; size_t eli = o.b % REG.size(); unsigned coin = (unsigned)(o.c * 8 + (o.b & 7)) & 2047u;
+            if (ext_of[i] >= 0 && (o.c & 3)) { eli = extremal_table()[(size_t)ext_of[i]].lang; coin = extremal_table()[(size_t)ext_of[i]].coin; cls["encode:longest-possible-phrase"]++; }
+            const lib::LangEntry& le = REG.at(eli);
             arm_now(); size_t ret = 0; std::string ph = lib::encode(ptr[i], le.lang, coin, &ret); k.disarm(); if (crypted[i]) saw_crypt_then_use = true;
             if (ret != ph.size()) { err = "encode returned a length different from strlen"; break; }
             if (fl.check_model && le.golden) { std::string mp = model::phrase(*le.golden, *slot[i], coin); if (mp != ph) err = "encode output [" + ph + "] differs from the model phrase [" + mp + "] for " + slot[i]->describe(); }
